@@ -323,6 +323,7 @@ func fibHasHop(e *fibStrategyTreeEntry, nexthop uint64, cost uint64) bool {
 //@   ensures [one-entry] forall(func(n *fibStrategyTreeEntry, m *fibStrategyTreeEntry) bool { return !sameSlice(n.nexthops, old(n.nexthops)) && !sameSlice(m.nexthops, old(m.nexthops)) ==> n == m })
 //@   ensures [changed-is-target] forall(func(n *fibStrategyTreeEntry) bool { return !sameSlice(n.nexthops, old(n.nexthops)) ==> n.depth == len(name) && fibAtPrefix(f.root, n, name) && len(n.nexthops) == 0 })
 //@   ensures [pruned] forall(func(n *fibStrategyTreeEntry) bool { return n.parent != nil && fibEmpty(n) && fibLinked(n) ==> old(fibEmpty(n)) })
+//@   ensures [root-cleared] name != nil && len(name) == 0 ==> len(f.root.nexthops) == 0
 
 //@ func (*FibStrategyTree).RemoveNextHopEnc
 //@   requires f.fibPrefixes != nil
